@@ -795,6 +795,62 @@ func (a *Analysis) IdxGuard() *report.RuleResult {
 							visitExpr(ix, facts, false)
 						}
 					}
+					if len(x.Lhs) > 1 && len(x.Lhs) == len(x.Rhs) && x.Tok == token.DEFINE {
+						// a, b := e1, e2 with new variables on the left and none of them on the right: two definitions
+						names := map[string]bool{}
+						for _, l := range x.Lhs {
+							names[pr.term(l)] = true
+						}
+						indep := true
+						var rs []lexpr
+						for _, r := range x.Rhs {
+							e, ok := pr.lin(r)
+							if !ok {
+								indep = false
+								break
+							}
+							for t := range e.T {
+								if names[t] {
+									indep = false
+								}
+							}
+							rs = append(rs, e)
+						}
+						for _, l := range x.Lhs {
+							facts = kill(facts, pr.term(l))
+						}
+						if indep {
+							for i, l := range x.Lhs {
+								lt := lexpr{T: map[string]int{pr.term(l): 1}}
+								facts = append(facts, fact{E: lt.plus(rs[i], -1)}, fact{E: rs[i].plus(lt, -1)})
+								for t := range rs[i].T {
+									if strings.HasPrefix(t, "len(") {
+										facts = append(facts, mk(map[string]int{t: 1}, 0))
+									}
+								}
+							}
+						}
+						continue
+					}
+					if len(x.Lhs) == 1 && len(x.Rhs) == 1 && x.Tok == token.DEFINE {
+						// mid := (lo+hi)/2 and its spellings: lo <= mid < hi wherever lo < hi is known
+						if a, b, ok := midpointOf(x.Rhs[0]); ok {
+							la, ok1 := pr.lin(a)
+							lb, ok2 := pr.lin(b)
+							if ok1 && ok2 {
+								gap := lb.plus(la, -1)
+								gap.K--
+								if entails(gap, facts) {
+									mt := lexpr{T: map[string]int{pr.term(x.Lhs[0]): 1}}
+									facts = kill(facts, pr.term(x.Lhs[0]))
+									up := lb.plus(mt, -1)
+									up.K--
+									facts = append(facts, fact{E: mt.plus(la, -1)}, fact{E: up})
+									continue
+								}
+							}
+						}
+					}
 					if len(x.Lhs) == 1 && len(x.Rhs) == 1 {
 						if id, ok := x.Lhs[0].(*ast.Ident); ok {
 							delete(locals, id.Name)
@@ -1059,6 +1115,29 @@ func (a *Analysis) IdxGuard() *report.RuleResult {
 								return true
 							})
 							if onlyInc {
+								lf = append(lf, f)
+							}
+						}
+					}
+					if bl, ok := bisectionOf(x, func(e ast.Expr) string { return pr.term(e) }); ok {
+						// lo only grows and hi only shrinks: lower bounds of lo and upper bounds of hi that hold on entry are invariant
+						for _, f := range facts {
+							if f.Ne {
+								continue
+							}
+							keep := len(f.E.T) > 0
+							for t, c := range f.E.T {
+								switch {
+								case t == bl.lo && c > 0, t == bl.hi && c < 0:
+								case t == bl.lo, t == bl.hi, t == bl.mid:
+									keep = false
+								default:
+									if inc, dec, other := loopMoves(pr, x, t); inc || dec || other {
+										keep = false
+									}
+								}
+							}
+							if keep {
 								lf = append(lf, f)
 							}
 						}
